@@ -89,7 +89,13 @@ class Thread(threading.Thread):
 
             tb = ''.join(traceback.format_exception(type(e), e, e.__traceback__))
             tb = f'[{threading.current_thread().name}] ' + tb
-            e.__cause__ = type(e)(tb)
+            try:
+                e.__cause__ = type(e)(tb)
+            except Exception:
+                # Not every exception class can be instantiated with a single string
+                # (e.g. `UnicodeDecodeError`). Failing here would leave the future
+                # unresolved and make `join`, `result` and `exception` hang.
+                e.__cause__ = RuntimeError(tb)
             e.__traceback__ = None
 
             self._future_.set_exception(e)
